@@ -289,6 +289,28 @@ def check(repo, tier):
                             bad.append(f'solution {k}: rank {t._attrs["ranks"][b]} of bond {b} is not bounded by the rank of the guess')
                     if any(t is g_ for g_ in gl):
                         bad.append(f'solution {k} is the guess object itself')
+            # sweep coverage: per output row and repeat the micro least-squares problems are solved for cores 0 .. d-2 (forward) and d-1 .. 0 (backward); a core the
+            # forward half sweep skips keeps the triangular factor its neighbour dropped.  (consecutive repetitions of a site count once; a solution that does not
+            # go straight into a core slot is "no verdict")
+            ls_res = {id(e['result']) for e in sc.events('lstsq') if l2rules.in_modules(e, mods)}
+            stores = [e for e in sc.events('core-store') if isinstance(e['value'], Arr)]
+            seq = [(id(e['tt']), e['slot']) for e in stores if id(e['value']) in ls_res or any(id(p_) in ls_res for p_ in e['value'].parents)]
+            if ls_res and seq:
+                def collapse(xs):
+                    out = []
+                    for x_ in xs:
+                        if not out or out[-1] != x_:
+                            out.append(x_)
+                    return out
+                per_row = {}
+                for t_, k_ in seq:
+                    per_row.setdefault(t_, []).append(k_)
+                want = collapse((list(range(0, order - 1)) + list(range(order - 1, -1, -1))) * rep)
+                wrong = [ks for ks in per_row.values() if collapse(ks) != want]
+                run.oblige('D2', (entry, scen, 'sweep coverage'), not wrong)
+                if wrong:
+                    run.add(F(entry, 'D2', 'ARR sweep order', f'{scen}: the micro least-squares problems of one output row are solved for cores {wrong[0]}, expected {want} '
+                              f'(a core that is not re-solved keeps what the orthonormalisation of its neighbour left in it)'))
             run.oblige('D2', (entry, scen, 'results'), not bad)
             if bad:
                 run.add(F(entry, 'D2', 'ARR results', f'{scen}: ' + '; '.join(sorted(set(bad))[:3])))
